@@ -14,6 +14,7 @@ let ints s = if s = "" then [] else List.map int_of_string (String.split_on_char
 let zs s = List.map z_of_int (ints s)
 let b s = s = "1"
 let n s = nat_of_int (int_of_string s)
+let nn s = let k = int_of_string s in if k = 0 then N0 else Npos (pos_of_int k)   (* uint32 arguments stay binary *)
 
 let parse_op (s : string) : op =
   match String.split_on_char ':' s with
@@ -28,7 +29,7 @@ let parse_op (s : string) : op =
   | ["rp"; i; x] -> OReplaceAt (n i, z_of_int (int_of_string x))
   | ["g"; i] -> OGet (n i)
   | ["cl"; r] -> OClear (b r)
-  | ["es"; k; s; e; sh] -> OEnsure (n k, b s, n e, b sh)
+  | ["es"; k; s; e; sh] -> OEnsure (nn k, b s, nn e, b sh)
   | ["sw"; i; j] -> OSwap (n i, n j)
   | ["rv"; f; t] -> OReverse (n f, n t)
   | ["nm"] -> ONormalize
@@ -51,8 +52,8 @@ let parse_op (s : string) : op =
   | ["iar"; idx; i] -> OInsertAtRef (n idx, n i)
   | ["rpr"; idx; i] -> OReplaceRef (n idx, n i)
   | ["rar"; i] -> ORemoveAllRef (n i)
-  | ["stf"; e] -> OShrinkToFit (n e)
-  | ["eca"; k] -> OEnsureCanAdd (n k)
+  | ["stf"; e] -> OShrinkToFit (nn e)
+  | ["eca"; k] -> OEnsureCanAdd (nn k)
   | ["rpa"; x] -> OReplaceAll (z_of_int (int_of_string x))
   | ["gap"] -> OPieces
   | _ -> failwith ("bad op " ^ s)
